@@ -487,8 +487,9 @@ theorem acctOf_append (tr ps : List Prim) : acctOf (tr ++ ps) = (acctOf tr).step
   simp [acctOf, Acct.stepAll, List.foldl_append]
 
 /-- everything of the logger state except the files and the trace -/
-def St.vars (s : St) : Cfg × Int × Int × Int × Status × Bool × Bool × Bool × Nat × Option (List Nat) :=
-  (s.cfg, s.stamp, s.flushStamp, s.cycleStamp, s.status, s.logged, s.first, s.hasPaths, s.seq, s.batch)
+def St.vars (s : St) :
+    Cfg × Int × Int × Int × Status × Bool × Bool × Bool × Nat × Option (List Nat) × Option Nat :=
+  (s.cfg, s.stamp, s.flushStamp, s.cycleStamp, s.status, s.logged, s.first, s.hasPaths, s.seq, s.batch, s.failAt)
 
 /-- `s'` has the same variables, the same files present, and the same main-file-plus-buffer -/
 structure Kept (s s' : St) : Prop where
@@ -630,7 +631,7 @@ theorem reopen_spec (s : St) (keep : Nat) (hg : Good b s) (ho : s.fs.isOpen = tr
   obtain ⟨g1, k1, c1, b1⟩ := closeLog_spec s hg ho
   have hv := k1.vars
   simp only [St.vars, Prod.mk.injEq] at hv
-  obtain ⟨v1, v2, v3, v4, v5, v6, v7, v8, v9, v10⟩ := hv
+  obtain ⟨v1, v2, v3, v4, v5, v6, v7, v8, v9, v10, _⟩ := hv
   -- after the close
   generalize hs1 : s.closeLog = s1 at g1 k1 c1 b1 v1 v2 v3 v4 v5 v6 v7 v8 v9 v10
   have hmain1 : content (s1.fs.slots 0) = content (s.fs.slots 0) ++ s.fs.buf := by
@@ -742,6 +743,7 @@ structure ChainInv (b : Bool) (s : St) (k : Nat) : Prop where
   closed : s.fs.isOpen = false
   size : (s.fs.slots 0).isSome = true →
     s.cfg.fileSize = 0 ∨ s.cfg.fileSize ≤ bytes s.cfg (content (s.fs.slots 0))
+  nofault : s.failAt = none
 
 theorem renames_spec (s : St) (k : Nat) (h : ChainInv b s k) :
     (s.renames k).2 = true ∧ ChainInv b (s.renames k).1 0 ∧ (s.renames k).1.vars = s.vars ∧
@@ -768,7 +770,7 @@ theorem renames_spec (s : St) (k : Nat) (h : ChainInv b s k) :
       obtain ⟨e1, e2, e3⟩ := apply_rename_slots s.fs k c hk
       have hfs : (s.emit [.rename k]).fs = s.fs.apply (.rename k) := rfl
       have inv' : ChainInv b (s.emit [.rename k]) k := by
-        refine ⟨g', by have := h.kle; exact Nat.le_of_succ_le this, ?_, ?_, ?_, ?_, ?_, ?_⟩
+        refine ⟨g', by have := h.kle; exact Nat.le_of_succ_le this, ?_, ?_, ?_, ?_, ?_, ?_, h.nofault⟩
         · intro i hi
           rw [hfs, e1]
           simp only [mv]
@@ -796,7 +798,12 @@ theorem renames_spec (s : St) (k : Nat) (h : ChainInv b s k) :
             exact h.size hs
       obtain ⟨r1, r2, r3, r4, r5⟩ := ih (s.emit [.rename k]) inv'
       have hren : s.renames (k + 1) = (s.emit [.rename k]).renames k := by
-        simp only [St.renames, hk]
+        have hnf := h.nofault
+        cases s with
+        | mk cfg fs fs0 trace stamp flushStamp cycleStamp status logged first hasPaths seq batch failAt =>
+          simp only at hnf hk
+          subst hnf
+          simp only [St.renames, Option.map_none, hk]
       rw [hren]
       refine ⟨r1, r2, r3, r4, fun _ => ?_⟩
       by_cases e : k = 0
@@ -805,6 +812,119 @@ theorem renames_spec (s : St) (k : Nat) (h : ChainInv b s k) :
         show (s.emit [.rename 0]).fs.slots 0 = none
         rw [hfs, e1]; simp [mv]
       · exact r5 (by omega)
+
+/-! ## the rename chain when `os.rename` fails (injected fault, or a source that is missing) -/
+
+/-- about to rename slots `k-1 … 0`, with no assumption on which copies exist or whether a fault is
+pending: slot `k` is the hole the chain itself has just made (or the oldest copy) -/
+structure ChainF (b : Bool) (s : St) (k : Nat) : Prop where
+  good : Good b s
+  kle : k ≤ s.cfg.keep
+  hole : k < s.cfg.keep → s.fs.slots k = none
+  buf : s.fs.buf = []
+  closed : s.fs.isOpen = false
+  size : (s.fs.slots 0).isSome = true →
+    s.cfg.fileSize = 0 ∨ s.cfg.fileSize ≤ bytes s.cfg (content (s.fs.slots 0))
+
+theorem P_noop (K : Nat) (fs : FS) (a : Acct) (p : Prim) (h : P K b fs a) (h1 : fs.apply p = fs)
+    (h2 : a.step p = a) : P K b (fs.apply p) (a.step p) := by rw [h1, h2]; exact h
+
+/-- a rename that raises (fault on an existing source, or a missing source) moves nothing and changes no account -/
+theorem failed_rename_good (s : St) (k : Nat) (h : ChainF b s (k + 1)) (f : Option Nat) (p : Prim)
+    (hp : (p = .renameErr k) ∨ (p = .rename k ∧ s.fs.slots k = none)) :
+    Good b (({ s with failAt := f } : St).emit [p]) ∧ (({ s with failAt := f } : St).emit [p]).fs = s.fs := by
+  have hg : Good b ({ s with failAt := f } : St) := h.good.congr rfl rfl rfl rfl
+  have hP := h.good.now
+  have hfs : s.fs.apply p = s.fs := by
+    rcases hp with rfl | ⟨rfl, hn⟩
+    · rfl
+    · simp only [FS.apply, hn]
+  have hac : (acctOf s.trace).step p = acctOf s.trace := by
+    rcases hp with rfl | ⟨rfl, hn⟩
+    · rfl
+    · cases k with
+      | succ k => rfl
+      | zero =>
+        -- the main file is missing: nothing was written since it was moved away
+        have hnew := hP.newest
+        rw [hn, h.buf] at hnew
+        show ({ (acctOf s.trace) with since := [] } : Acct) = acctOf s.trace
+        have : (acctOf s.trace).since = [] := by simpa [content, recsOf] using hnew.symm
+        cases hacc : acctOf s.trace with
+        | mk fl pe si => rw [hacc] at this; simp only at this; subst this; rfl
+  have hQ : Q s.cfg s.fs p := by
+    intro e hs
+    rcases hp with rfl | ⟨rfl, hn⟩
+    · cases e
+    · have : k = 0 := by simpa using e
+      subst this
+      rw [hn] at hs; cases hs
+  refine ⟨emit_good hg [p] ⟨hP, hQ, P_noop _ _ _ p hP hfs hac⟩, hfs⟩
+
+/-- **the rename chain with faults**: whatever copies exist and whichever `os.rename` call raises,
+every crash point of the chain satisfies the invariant `P` (contiguity of what is retained, nothing
+but the oldest copy overwritten, every file empty or header + records), the files end closed and
+unbuffered, and a chain that fails leaves the main file as it was -/
+theorem renames_fault_spec (s : St) (k : Nat) (h : ChainF b s k) :
+    Good b (s.renames k).1 ∧ (s.renames k).1.fs.buf = [] ∧ (s.renames k).1.fs.isOpen = false ∧
+    (s.renames k).1.cfg = s.cfg ∧ (s.renames k).1.fs0 = s.fs0 ∧
+    ((s.renames k).2 = false → (s.renames k).1.fs.slots 0 = s.fs.slots 0) := by
+  induction k generalizing s with
+  | zero => exact ⟨h.good, h.buf, h.closed, rfl, rfl, fun _ => rfl⟩
+  | succ k ih =>
+    unfold St.renames
+    split
+    · -- the injected fault hits this call
+      obtain ⟨g, hfs⟩ := failed_rename_good s k h none
+        (if (s.fs.slots k).isSome then .renameErr k else .rename k) (by
+          cases hk : s.fs.slots k with
+          | none => exact Or.inr ⟨by simp, rfl⟩
+          | some c => exact Or.inl (by simp))
+      refine ⟨g, by rw [hfs]; exact h.buf, by rw [hfs]; exact h.closed, rfl, rfl, fun _ => by rw [hfs]⟩
+    · simp only []
+      have hg1 : Good b ({ s with failAt := s.failAt.map (· - 1) } : St) := h.good.congr rfl rfl rfl rfl
+      split
+      · rename_i c hk
+        have hk' : s.fs.slots k = some c := hk
+        have hP := h.good.now
+        have hdest : k + 1 = s.cfg.keep ∨ s.fs.slots (k + 1) = none := by
+          by_cases e : k + 1 = s.cfg.keep
+          · exact Or.inl e
+          · exact Or.inr (h.hole (by have := h.kle; omega))
+        have hP' := P_rename s.cfg.keep s.fs (acctOf s.trace) k c hP h.buf hk' (by have := h.kle; omega) hdest
+        have hQ : Q s.cfg s.fs (.rename k) := by
+          intro e hs
+          have : k = 0 := by simpa using e
+          subst this
+          exact h.size hs
+        have g' : Good b (({ s with failAt := s.failAt.map (· - 1) } : St).emit [.rename k]) :=
+          emit_good hg1 _ ⟨hP, hQ, hP'⟩
+        obtain ⟨e1, e2, e3⟩ := apply_rename_slots s.fs k c hk'
+        have hfs : (({ s with failAt := s.failAt.map (· - 1) } : St).emit [.rename k]).fs = s.fs.apply (.rename k) := rfl
+        have inv' : ChainF b (({ s with failAt := s.failAt.map (· - 1) } : St).emit [.rename k]) k := by
+          refine ⟨g', by have := h.kle; exact Nat.le_of_succ_le this, ?_, ?_, ?_, ?_⟩
+          · intro _; rw [hfs, e1]; simp [mv]
+          · rw [hfs, e2]; exact h.buf
+          · rw [hfs, e3]; exact h.closed
+          · intro hs
+            rw [hfs, e1] at hs ⊢
+            by_cases e : k = 0
+            · subst e; simp [mv] at hs
+            · have : mv s.fs.slots k 0 = s.fs.slots 0 := by
+                simp only [mv]; rw [if_neg (by omega), if_neg (by omega)]
+              rw [this] at hs ⊢
+              exact h.size hs
+        obtain ⟨r1, r2, r3, r4, r5, r6⟩ := ih _ inv'
+        refine ⟨r1, r2, r3, r4, r5, fun hfalse => ?_⟩
+        rw [r6 hfalse, hfs, e1]
+        by_cases e : k = 0
+        · -- the chain ends with this rename: it cannot have failed afterwards
+          subst e
+          simp [St.renames] at hfalse
+        · simp only [mv]; rw [if_neg (by omega), if_neg (by omega)]
+      · rename_i hk
+        obtain ⟨g, hfs⟩ := failed_rename_good s k h (s.failAt.map (· - 1)) (.rename k) (Or.inr ⟨rfl, hk⟩)
+        refine ⟨g, by rw [hfs]; exact h.buf, by rw [hfs]; exact h.closed, rfl, rfl, fun _ => by rw [hfs]⟩
 
 /-! ## the invariant between controls -/
 
@@ -818,6 +938,8 @@ structure SI (b : Bool) (s : St) : Prop where
   shape : Shape (content (s.fs.slots 0) ++ s.fs.buf)
   openHdr : s.fs.isOpen = true → content (s.fs.slots 0) ++ s.fs.buf ≠ []
   opened : s.fs.isOpen = true → (s.fs.slots 0).isSome = true
+  /-- no injected fault is pending -/
+  nofault : s.failAt = none
 
 /-- the variables a file operation never touches (`.first` is not among them) -/
 structure Vars0 (s s' : St) : Prop where
@@ -829,25 +951,28 @@ structure Vars0 (s s' : St) : Prop where
   hasPaths : s'.hasPaths = s.hasPaths
   batch : s'.batch = s.batch
   stamps : s'.stamp = s.stamp ∧ s'.flushStamp = s.flushStamp ∧ s'.cycleStamp = s.cycleStamp
+  failAt : s'.failAt = s.failAt
 
-theorem Vars0.refl (s : St) : Vars0 s s := ⟨rfl, rfl, rfl, rfl, rfl, rfl, rfl, rfl, rfl, rfl⟩
+theorem Vars0.refl (s : St) : Vars0 s s := ⟨rfl, rfl, rfl, rfl, rfl, rfl, rfl, ⟨rfl, rfl, rfl⟩, rfl⟩
 
 theorem Vars0.trans {a b c : St} (h1 : Vars0 a b) (h2 : Vars0 b c) : Vars0 a c :=
   ⟨h2.cfg.trans h1.cfg, h2.fs0.trans h1.fs0, h2.logged.trans h1.logged, h2.status.trans h1.status,
    h2.seq.trans h1.seq, h2.hasPaths.trans h1.hasPaths, h2.batch.trans h1.batch,
-   h2.stamps.1.trans h1.stamps.1, h2.stamps.2.1.trans h1.stamps.2.1, h2.stamps.2.2.trans h1.stamps.2.2⟩
+   ⟨h2.stamps.1.trans h1.stamps.1, h2.stamps.2.1.trans h1.stamps.2.1, h2.stamps.2.2.trans h1.stamps.2.2⟩,
+   h2.failAt.trans h1.failAt⟩
 
 theorem Vars0.of_vars {s s' : St} (hv : s'.vars = s.vars) (hf : s'.fs0 = s.fs0) : Vars0 s s' ∧ s'.first = s.first := by
   simp only [St.vars, Prod.mk.injEq] at hv
-  obtain ⟨v1, v2, v3, v4, v5, v6, v7, v8, v9, v10⟩ := hv
-  exact ⟨⟨v1, hf, v6, v5, v9, v8, v10, v2, v3, v4⟩, v7⟩
+  obtain ⟨v1, v2, v3, v4, v5, v6, v7, v8, v9, v10, v11⟩ := hv
+  exact ⟨⟨v1, hf, v6, v5, v9, v8, v10, ⟨v2, v3, v4⟩, v11⟩, v7⟩
 
 theorem Kept.vars0 {s s' : St} (h : Kept s s') : Vars0 s s' ∧ s'.first = s.first := Vars0.of_vars h.vars h.fs0
 
 /-- `SI` survives an operation that keeps the files present and main-file-plus-buffer -/
 theorem SI.kept {s s' : St} (h : SI b s) (hk : Kept s s') (hg : Good b s') (ho : s'.fs.isOpen = s.fs.isOpen) : SI b s' := by
   obtain ⟨v, vf⟩ := hk.vars0
-  refine ⟨hg, ?_, by rw [v.cfg]; exact h.fixed, ?_, by rw [hk.main]; exact h.shape, ?_, ?_⟩
+  refine ⟨hg, ?_, by rw [v.cfg]; exact h.fixed, ?_, by rw [hk.main]; exact h.shape, ?_, ?_,
+    by rw [v.failAt]; exact h.nofault⟩
   · intro hp
     rw [v.hasPaths] at hp
     obtain ⟨p1, p2⟩ := h.paths hp
@@ -865,10 +990,22 @@ theorem SI.kept {s s' : St} (h : SI b s) (hk : Kept s s') (hg : Good b s') (ho :
     exact h.opened (ho ▸ hop)
 
 theorem emit_vars0 (s : St) (ps : List Prim) : Vars0 s (s.emit ps) ∧ (s.emit ps).first = s.first :=
-  ⟨⟨rfl, rfl, rfl, rfl, rfl, rfl, rfl, rfl, rfl, rfl⟩, rfl⟩
+  ⟨⟨rfl, rfl, rfl, rfl, rfl, rfl, rfl, ⟨rfl, rfl, rfl⟩, rfl⟩, rfl⟩
 
-theorem Reopened.vars0 {s s' : St} (h : Reopened b s s' 0) : Vars0 s s' :=
-  ⟨h.cfg, h.fs0, h.logged, h.status, h.seq, by rw [h.paths]; simp, h.batch, h.stamps⟩
+theorem closeLog_failAt (s : St) : s.closeLog.failAt = s.failAt := by
+  unfold St.closeLog; split <;> rfl
+
+theorem flushLog_failAt (s : St) : s.flushLog.failAt = s.failAt := by
+  unfold St.flushLog; split <;> rfl
+
+theorem reopen_failAt (s : St) (keep : Nat) : (s.reopen keep).failAt = s.failAt := by
+  unfold St.reopen
+  simp only []
+  repeat' split
+  all_goals exact closeLog_failAt s
+
+theorem Reopened.vars0 {s s' : St} (h : Reopened b s s' 0) (hf : s'.failAt = s.failAt) : Vars0 s s' :=
+  ⟨h.cfg, h.fs0, h.logged, h.status, h.seq, by rw [h.paths]; simp, h.batch, h.stamps, hf⟩
 
 /-- `Log.cycle`, called on an open log -/
 theorem cycle_spec (s : St) (h : SI b s) (hop : s.fs.isOpen = true) :
@@ -895,7 +1032,8 @@ theorem cycle_spec (s : St) (h : SI b s) (hop : s.fs.isOpen = true) :
         have hmain2 : content (s1.closeLog.fs.slots 0) = content (s1.fs.slots 0) := by
           have := k2.main; rw [b2, b1', List.append_nil, List.append_nil] at this; exact this
         have chain : ChainInv b s1.closeLog s1.closeLog.cfg.keep := by
-          refine ⟨g2, Nat.le_refl _, ?_, fun h => absurd h (Nat.lt_irrefl _), ?_, b2, c2, ?_⟩
+          refine ⟨g2, Nat.le_refl _, ?_, fun h => absurd h (Nat.lt_irrefl _), ?_, b2, c2, ?_,
+            by rw [closeLog_failAt]; exact si1.nofault⟩
           · intro i hi
             rw [k2.some i]
             exact p2 i (by rw [v2.cfg] at hi; omega)
@@ -934,12 +1072,13 @@ theorem cycle_spec (s : St) (h : SI b s) (hop : s.fs.isOpen = true) :
         have hbuf4 : (s3.emit [.create, .write [.header]]).fs.buf = [.header] := rfl
         have ro := reopen_spec (s3.emit [.create, .write [.header]]) 0 g4 (fun _ => by rw [hslots4 0]; rfl)
         obtain ⟨v4, _⟩ := emit_vars0 s3 [.create, .write [.header]]
-        have v5 := ro.vars0
+        have v5 := ro.vars0 (reopen_failAt _ 0)
         generalize (s3.emit [.create, .write [.header]]).reopen 0 = s5 at ro v5
         have vall : Vars0 s s5 := v1.trans (v2.trans (v3.trans (v4.trans v5)))
         have hmb : content (s5.fs.slots 0) ++ s5.fs.buf = [.header] := by
           rw [ro.main, ro.buf, hslots4 0, if_pos rfl, hbuf4]; rfl
-        refine ⟨⟨ro.good, ?_, by rw [vall.cfg]; exact h.fixed, ?_, ?_, ?_, ?_⟩, ro.isOpen, vall⟩
+        refine ⟨⟨ro.good, ?_, by rw [vall.cfg]; exact h.fixed, ?_, ?_, ?_, ?_,
+          by rw [vall.failAt]; exact h.nofault⟩, ro.isOpen, vall⟩
         · intro _
           rw [vall.cfg]
           have hkc : s.cfg.keep = s1.cfg.keep := by rw [v1.cfg]
@@ -967,25 +1106,26 @@ structure Pre (b : Bool) (s : St) : Prop where
   hdr : ∃ rs : List Rec, content (s.fs.slots 0) ++ s.fs.buf = .header :: rs.map Line.rec_
   main : (s.fs.slots 0).isSome = true
   fixed : s.cfg.emptyIsNew = true
+  nofault : s.failAt = none
 
 theorem Pre.si {s : St} (h : Pre b s) : SI b s := by
   obtain ⟨rs, hrs⟩ := h.hdr
-  refine ⟨h.good, h.paths, h.fixed, ?_, Or.inr ⟨rs, hrs⟩, ?_, fun _ => h.main⟩
+  refine ⟨h.good, h.paths, h.fixed, ?_, Or.inr ⟨rs, hrs⟩, ?_, fun _ => h.main, h.nofault⟩
   · intro he; rw [hrs] at he; cases he
   · intro _; rw [hrs]; simp
 
 theorem SI.pre {s : St} (h : SI b s) (ho : s.fs.isOpen = true) : Pre b s := by
   have hm := h.opened ho
-  refine ⟨h.good, h.paths, ho, ?_, hm, h.fixed⟩
+  refine ⟨h.good, h.paths, ho, ?_, hm, h.fixed, h.nofault⟩
   rcases h.shape with he | ⟨rs, hrs⟩
   · exact absurd he (h.openHdr ho)
   · exact ⟨rs, hrs⟩
 
 /-- changing only timers, `.seq`, `.logged`, `.status` keeps `Pre` -/
 theorem Pre.congr {s s' : St} (h : Pre b s) (h1 : s'.fs = s.fs) (h2 : s'.fs0 = s.fs0) (h3 : s'.trace = s.trace)
-    (h4 : s'.cfg = s.cfg) (h5 : s'.hasPaths = s.hasPaths) : Pre b s' :=
+    (h4 : s'.cfg = s.cfg) (h5 : s'.hasPaths = s.hasPaths) (h6 : s'.failAt = s.failAt := by rfl) : Pre b s' :=
   ⟨h.good.congr h1 h2 h3 h4, by rw [h5, h4, h1]; exact h.paths, by rw [h1]; exact h.isOpen,
-   by rw [h1]; exact h.hdr, by rw [h1]; exact h.main, by rw [h4]; exact h.fixed⟩
+   by rw [h1]; exact h.hdr, by rw [h1]; exact h.main, by rw [h4]; exact h.fixed, by rw [h6]; exact h.nofault⟩
 
 /-- what the pieces of `Logger.log` keep -/
 structure Step (b : Bool) (s s' : St) : Prop where
@@ -1009,7 +1149,7 @@ theorem writeRec_spec (s : St) (h : Pre b s) : Step b s s.writeRec := by
     have g1 : Good b (s.emit [.write ((mkRecs s.seq sizes).map Line.rec_)]) :=
       emit_good h.good _ ⟨hP, Q_of_ne (by simp), hP1⟩
     have pre1 : Pre b (s.emit [.write ((mkRecs s.seq sizes).map Line.rec_)]) := by
-      refine ⟨g1, h.paths, h.isOpen, ?_, h.main, h.fixed⟩
+      refine ⟨g1, h.paths, h.isOpen, ?_, h.main, h.fixed, h.nofault⟩
       obtain ⟨rs, hrs⟩ := h.hdr
       refine ⟨rs ++ mkRecs s.seq sizes, ?_⟩
       show content (s.fs.slots 0) ++ (s.fs.buf ++ (mkRecs s.seq sizes).map Line.rec_) = _
@@ -1045,10 +1185,10 @@ theorem logAll_spec (s : St) (h : Pre b s) : Step b s s.logAll := by
 
 theorem SI.congr {s s' : St} (h : SI b s) (h1 : s'.fs = s.fs) (h2 : s'.fs0 = s.fs0) (h3 : s'.trace = s.trace)
     (h4 : s'.cfg = s.cfg) (h5 : s'.hasPaths = s.hasPaths) (h6 : s'.first = s.first)
-    (h7 : s'.logged = s.logged) : SI b s' :=
+    (h7 : s'.logged = s.logged) (h8 : s'.failAt = s.failAt := by rfl) : SI b s' :=
   ⟨h.good.congr h1 h2 h3 h4, by rw [h5, h4, h1]; exact h.paths, by rw [h4]; exact h.fixed,
    by rw [h1, h6, h7]; exact h.empty, by rw [h1]; exact h.shape, by rw [h1]; exact h.openHdr,
-   by rw [h1]; exact h.opened⟩
+   by rw [h1]; exact h.opened, by rw [h8]; exact h.nofault⟩
 
 structure Inv (b : Bool) (s : St) : Prop where
   si : SI b s
@@ -1058,7 +1198,8 @@ theorem start_spec (s : St) (h : Inv b s) : Inv b (s.send .start) ∧ (s.send .s
     (s.send .start).fs0 = s.fs0 := by
   have ro := reopen_spec s s.cfg.keep h.si.good h.si.opened
   simp only [St.send]
-  generalize s.reopen s.cfg.keep = s1 at ro
+  have hnf1 : (s.reopen s.cfg.keep).failAt = none := by rw [reopen_failAt]; exact h.si.nofault
+  generalize s.reopen s.cfg.keep = s1 at ro hnf1
   -- `prepare`
   have hpaths1 : s1.hasPaths = true → 1 ≤ s1.cfg.keep ∧ ∀ i, i ≤ s1.cfg.keep → (s1.fs.slots i).isSome = true := by
     intro hp
@@ -1090,7 +1231,7 @@ theorem start_spec (s : St) (h : Inv b s) : Inv b (s.send .start) ∧ (s.send .s
       have g2 : Good b (s1.emit [.write [.header]]) := emit_good ro.good _ ⟨hP, Q_of_ne (by simp), hP'⟩
       simp only [hl, hf, Bool.not_false, Bool.and_self, if_true] at hs2
       subst hs2
-      refine ⟨⟨g2, hpaths1, ro.isOpen, ⟨[], ?_⟩, hmain1, hfix1⟩, rfl, rfl⟩
+      refine ⟨⟨g2, hpaths1, ro.isOpen, ⟨[], ?_⟩, hmain1, hfix1, hnf1⟩, rfl, rfl⟩
       show content (s1.fs.slots 0) ++ (s1.fs.buf ++ [.header]) = _
       rw [← List.append_assoc, he]; rfl
     · -- the file has content: it starts with its header, none is added
@@ -1099,7 +1240,7 @@ theorem start_spec (s : St) (h : Inv b s) : Inv b (s.send .start) ∧ (s.send .s
       subst hs2
       rcases h.si.shape with he | ⟨rs, hrs⟩
       · exact absurd he he0
-      · exact ⟨⟨ro.good, hpaths1, ro.isOpen, ⟨rs, by rw [hmb1]; exact hrs⟩, hmain1, hfix1⟩, rfl, rfl⟩
+      · exact ⟨⟨ro.good, hpaths1, ro.isOpen, ⟨rs, by rw [hmb1]; exact hrs⟩, hmain1, hfix1, hnf1⟩, rfl, rfl⟩
   obtain ⟨p2, c2, f2⟩ := pre2 _ rfl
   generalize (if !s1.logged && s1.first then s1.emit [.write [.header]] else s1) = s2 at p2 c2 f2
   have st := logAll_spec s2 p2
@@ -1115,7 +1256,8 @@ theorem run_spec (s : St) (h : Inv b s) (hr : s.status ≠ .stopped) : Inv b (s.
 theorem SI.closed {s s' : St} (h : SI b s) (hk : Kept s s') (hg : Good b s') (hc : s'.fs.isOpen = false)
     (hne : content (s.fs.slots 0) ++ s.fs.buf ≠ []) : SI b s' := by
   obtain ⟨v, vf⟩ := hk.vars0
-  refine ⟨hg, ?_, by rw [v.cfg]; exact h.fixed, ?_, by rw [hk.main]; exact h.shape, ?_, ?_⟩
+  refine ⟨hg, ?_, by rw [v.cfg]; exact h.fixed, ?_, by rw [hk.main]; exact h.shape, ?_, ?_,
+    by rw [v.failAt]; exact h.nofault⟩
   · intro hp
     rw [v.hasPaths] at hp
     obtain ⟨p1, p2⟩ := h.paths hp
@@ -1151,7 +1293,7 @@ theorem stop_spec (s : St) (h : Inv b s) : Inv b (s.send .stop) ∧ (s.send .sto
 
 /-- a new process life -/
 theorem reboot_spec' (s : St) (hgood : Good b s) (hfixed : s.cfg.emptyIsNew = true)
-    (hshape : Shape (content (s.fs.slots 0) ++ s.fs.buf)) :
+    (hshape : Shape (content (s.fs.slots 0) ++ s.fs.buf)) (hnf : s.failAt = none) :
     Inv b s.reboot ∧ s.reboot.cfg = s.cfg ∧ s.reboot.fs0 = s.fs0 := by
   have hP := hgood.now
   have g1 : Good b (s.emit [if s.cfg.reuse then .reboot else .newdir]) := by
@@ -1164,7 +1306,7 @@ theorem reboot_spec' (s : St) (hgood : Good b s) (hfixed : s.cfg.emptyIsNew = tr
   have hbuf : (s.fs.apply (if s.cfg.reuse then Prim.reboot else Prim.newdir)).buf = [] := by
     split <;> rfl
   suffices si : SI b s.reboot from ⟨⟨si, fun hne => absurd rfl hne⟩, rfl, rfl⟩
-  refine ⟨g1.congr rfl rfl rfl rfl, ?_, hfixed, ?_, ?_, ?_, ?_⟩
+  refine ⟨g1.congr rfl rfl rfl rfl, ?_, hfixed, ?_, ?_, ?_, ?_, hnf⟩
   · intro hp; cases hp
   · intro _; exact ⟨rfl, rfl⟩
   · -- what survives is a prefix of what was there
@@ -1184,7 +1326,7 @@ theorem reboot_spec' (s : St) (hgood : Good b s) (hfixed : s.cfg.emptyIsNew = tr
 
 theorem reboot_spec (s : St) (h : Inv b s) :
     Inv b s.reboot ∧ s.reboot.cfg = s.cfg ∧ s.reboot.fs0 = s.fs0 :=
-  reboot_spec' s h.si.good h.si.fixed h.si.shape
+  reboot_spec' s h.si.good h.si.fixed h.si.shape h.si.nofault
 
 theorem AllP_prefix {cfg : Cfg} {fs : FS} {a : Acct} {xs ys : List Prim} (h : AllP cfg b fs a (xs ++ ys)) :
     AllP cfg b fs a xs := by
@@ -1202,7 +1344,7 @@ theorem cut_spec (s s' : St) (k : Nat) (hb : b = true) (h' : Inv b s') :
     rw [← List.take_append_drop (s.trace.length + k) s'.trace] at this
     exact AllP_prefix this
   have hg : Good b (St.cutMid s s' k) := ⟨rfl, hall⟩
-  exact reboot_spec' _ hg h'.si.fixed (hg.now.shape0 hb)
+  exact reboot_spec' _ hg h'.si.fixed (hg.now.shape0 hb) h'.si.nofault
 
 /-- RUN only to a started / running logger -/
 theorem ctl_spec (s : St) (c : Ctl) (h : Inv b s) (hp : proto s.status [.ctl c] = true) :
@@ -1218,6 +1360,7 @@ theorem ctl_spec (s : St) (c : Ctl) (h : Inv b s) (hp : proto s.status [.ctl c] 
 theorem step_spec (s : St) (op : Op) (hb : b = true) (h : Inv b s) (hp : proto s.status [op] = true) :
     Inv b (s.step op) ∧ (s.step op).cfg = s.cfg ∧ (s.step op).fs0 = s.fs0 := by
   cases op with
+  | fault n => simp [proto] at hp
   | die c k =>
     have hc : proto s.status [.ctl c] = true := by
       cases c <;> simp [proto] at hp ⊢
@@ -1254,6 +1397,7 @@ theorem step_status (s : St) (op : Op) : (s.step op).status = nextStatus s.statu
   | batch n => rfl
   | reboot => rfl
   | die c k => rfl
+  | fault n => rfl
   | ctl c =>
     cases c with
     | start => rfl
@@ -1270,6 +1414,7 @@ theorem proto_cons (st : Status) (op : Op) (rest : List Op) (h : proto st (op ::
   | advance d => exact ⟨rfl, h⟩
   | batch n => exact ⟨rfl, h⟩
   | reboot => exact ⟨rfl, h⟩
+  | fault n => simp [proto] at h
   | die c k =>
     simp only [proto, Bool.and_eq_true] at h ⊢
     exact ⟨⟨h.1, trivial⟩, h.2⟩
@@ -1292,7 +1437,7 @@ theorem exec_spec (s : St) (h : List Op) (hb : b = true) (hi : Inv b s) (hp : pr
     exact ⟨i2, c2.trans c1, f2.trans f1⟩
 
 theorem init_inv (cfg : Cfg) (hfix : cfg.emptyIsNew = true) : Inv b (St.init cfg) := by
-  refine ⟨⟨⟨rfl, P_empty cfg.keep⟩, ?_, hfix, ?_, Shape_nil, ?_, ?_⟩, ?_⟩
+  refine ⟨⟨⟨rfl, P_empty cfg.keep⟩, ?_, hfix, ?_, Shape_nil, ?_, ?_, rfl⟩, ?_⟩
   · intro h; cases h
   · intro _; exact ⟨rfl, rfl⟩
   · intro h; cases h
@@ -1333,6 +1478,7 @@ theorem written_step (a : Acct) (p : Prim) : (a.step p).written.Sublist (a.writt
   | sync => simp [Acct.step, Acct.written, recW]
   | closeF => simp [Acct.step, Acct.written, recW]
   | rename k => cases k <;> simp [Acct.step, Acct.written, recW]
+  | renameErr k => simp [Acct.step, Acct.written, recW]
   | create => simp [Acct.step, Acct.written, recW]
   | openA => simp [Acct.step, Acct.written, recW]
   | touch k => simp [Acct.step, Acct.written, recW]
@@ -1401,10 +1547,14 @@ theorem renames_noRec (s : St) (k : Nat) : NoRec s (s.renames k).1 := by
   induction k generalizing s with
   | zero => exact NoRec.refl s
   | succ k ih =>
+    have hset : ∀ (f : Option Nat), NoRec s ({ s with failAt := f } : St) := fun _ => ⟨rfl, rfl⟩
     unfold St.renames
     split
-    · exact (emit_noRec s [.rename k] rfl).trans (ih _)
-    · exact emit_noRec s [.rename k] rfl
+    · exact (hset none).trans (emit_noRec _ _ (by split <;> rfl))
+    · simp only []
+      split
+      · exact ((hset _).trans (emit_noRec _ [.rename k] rfl)).trans (ih _)
+      · exact (hset _).trans (emit_noRec _ [.rename k] rfl)
 
 theorem cycle_noRec (s : St) : NoRec s s.cycle := by
   unfold St.cycle
@@ -1520,6 +1670,7 @@ theorem send_numbered (s : St) (c : Ctl) (h : Numbered s) : Numbered (s.send c) 
 
 theorem step_numbered (s : St) (op : Op) (h : Numbered s) : Numbered (s.step op) := by
   cases op with
+  | fault n => exact h
   | die c k => exact cut_numbered s (s.send c) k (send_numbered s c h)
   | advance d => exact h
   | batch n => exact h
